@@ -10,6 +10,7 @@
      S|Y hist k wid quiet excl impl model spec_must spec_may
      M hist k impl model
      R hist k quiet impl model spec_must spec_may
+     B hist k bucket impl model          (store dumps: UC unmined credits, UI unmined inputs, GR / GU deposit rows)
      C hist k wid quiet implE modelE all half implInputs modelEligible
      W hist k wid txid vout locktime implres implseq modelseq required csvok
      X ... (harness errors are passed through) *)
@@ -232,6 +233,22 @@ let () =
         incr k;
         Printf.printf "R\t%s\t%d\t%s\t%s\t%s\t%s\t%s\n" !hist !k q (String.concat " " (n :: List.filter (fun x -> x <> "") rest))
           (String.concat " " (n :: m)) (sp lo) (sp hi)
+    | (("UC" | "UI" | "GR" | "GU") as kind) :: rest ->
+        let s = get_sim () in
+        let st = s.q_h.h_store in
+        let l = match kind with
+          | "UC" -> List.map (fun c -> Printf.sprintf "%d:%d" (int_of_n (fst c.uc_op)) (int_of_n (snd c.uc_op))) st.ps_ucredits
+          | "UI" -> List.filter_map (fun (o, sps) ->
+                        if sps = [] then None
+                        else Some (Printf.sprintf "%d:%d=%s" (int_of_n (fst o)) (int_of_n (snd o))
+                                     (String.concat "," (List.map (fun x -> string_of_int (int_of_n x)) sps)))) st.ps_uinputs
+          | "GR" -> List.map (fun r -> Printf.sprintf "%d:%d:%d:%d:%s:%d" (int_of_n r.g_wallet) (b01 r.g_binding) (b01 r.g_withdrawn)
+                                 (int_of_n r.g_tx) (string_of_z r.g_height) (int_of_n r.g_vout)) st.ps_game
+          | _ -> List.map (fun r -> Printf.sprintf "%d:%d:0:%d:0:%d" (int_of_n r.ug_wallet) (b01 r.ug_binding) (int_of_n r.ug_tx) (int_of_n r.ug_vout)) st.ps_ugame in
+        let l = List.sort compare l in
+        incr k;
+        Printf.printf "B\t%s\t%d\t%s\t%s\t%s\n" !hist !k kind (String.concat " " (List.filter (fun x -> x <> "") rest))
+          (String.concat " " (string_of_int (List.length l) :: l))
     | "C" :: w :: q :: e :: all :: half :: _ :: ins ->
         let s = get_sim () in
         let wn = n_of_int (int_of_string w) in
